@@ -131,6 +131,15 @@ def work(args):
                     # (the other direction - allof_required_unapplied, a C15/C10 finding - does not affect the round trip)
                     if pn in got and got[pn] and pn not in exp[1]:
                         out["kind_problems"].append({"cls": str(m.class_info.name), "prop": pn, "document_required": pn in exp[1], "parsed_required": got[pn], "schema": sch})
+                # every value an inline enum property LISTS in the document is a value of the parsed property (nothing listed may become undecodable)
+                gotk = {pn: k for pn, _req, k in ab.class_props(m)}
+                for pn, ps in ((sch.get("properties") or {}) if isinstance(sch, dict) else {}).items():
+                    if isinstance(ps, dict) and isinstance(ps.get("enum"), list) and pn in gotk:
+                        def _vals(k):
+                            return set(map(repr, k[3])) if k[0] == "enum" else set(map(repr, k[2])) if k[0] == "litenum" else set().union(*[_vals(x) for x in k[1]]) if k[0] == "union" else set()
+                        want = {repr(v) for v in ps["enum"] if v is not None}
+                        if not want <= _vals(gotk[pn]):
+                            out["kind_problems"].append({"cls": str(m.class_info.name), "prop": pn, "document_enum": ps["enum"], "parsed_values": sorted(_vals(gotk[pn])), "schema": ps})
                 if set(got) != exp[0] and not (cfg or {}).get("field_prefix"):
                     out["kind_problems"].append({"cls": str(m.class_info.name), "document_properties": sorted(exp[0]), "parsed_properties": sorted(got), "schema": sch})
             ops, meta = [], []
@@ -189,6 +198,11 @@ def run(run, tier, replay=None):
     nrand = 6 if tier == "quick" else 60
     for i in range(nrand):
         docs.append((f"rand{i}", G.random_doc(random.Random(rng.randrange(1 << 30)), n_models=rng.randint(3, 7), depth=rng.randint(1, 3)), None))
+    docs.append(("enum_edge", G.enum_edge_doc(), None))
+    from lib.common import BUILD
+    ld = G.locals_doc(BUILD, list(run.known) + [f["id"] for f in __import__("lib.common", fromlist=["known_findings"]).known_findings("C18")])
+    if ld is not None:
+        docs.append(("locals", ld, None))
     # literal_enums variant of two atlas documents
     docs += [(l + "+literal", d, {"literal_enums": True}) for l, d, _ in docs[:2]]
     per_class = 6 if tier == "quick" else 24
